@@ -113,6 +113,9 @@ pub enum Op {
     Deny { kind: ErrKind },
     Allow,
     Restart { client: usize },
+    /// The wall clock jumps (forwards or backwards) to this many seconds past the UNIX epoch;
+    /// `None`: to some time before 1970, where `Epoch::now()` reports an error.
+    SetClock { unix_s: Option<u64> },
     /// Several clients load concurrently, each on its own thread and its own path; the seeded
     /// scheduler of `conc.rs` decides the interleaving at read granularity.
     Concurrent {
@@ -143,6 +146,7 @@ impl Op {
             Op::Deny { .. } => 'D',
             Op::Allow => 'A',
             Op::Restart { .. } => 'X',
+            Op::SetClock { .. } => 'T',
             Op::Concurrent { .. } => 'C',
         }
     }
@@ -159,6 +163,38 @@ pub struct Scenario {
     /// What `stat` on the real path reports during this run (see `RealDisk::stat_lies`).
     #[serde(default)]
     pub stat_lies: u8,
+    /// What the wall clock reads when the run starts (seconds past the UNIX epoch; `None`: before
+    /// 1970). Always simulated: no run ever reads the real clock.
+    #[serde(default = "default_clock")]
+    pub clock: Option<u64>,
+}
+
+fn default_clock() -> Option<u64> {
+    Some(1_790_380_800) // 2026-09-26
+}
+
+/// Wall-clock readings worth trying: around every leap second (the inserted second included), the
+/// UNIX epoch, the shipped list's expiry, "today", the NTP era rollover, 2^31 s, far future.
+pub fn clock_reading(rng: &mut Rng) -> Option<u64> {
+    const UNIX_TO_NTP: u64 = 2_208_988_800;
+    match rng.below(12) {
+        0 => None,
+        1 => Some(0),
+        2 => Some(rng.below(86_400 * 366)),
+        3 | 4 => {
+            // within a minute of a leap second insertion
+            let (y, m, _) = *rng.pick(&crate::image::IERS_DATES);
+            let t = crate::refdata::ntp_seconds_of_date(y, m, 1) - UNIX_TO_NTP;
+            Some(t.saturating_add(rng.below(120)).saturating_sub(60))
+        }
+        5 => Some(3_896_899_200 - UNIX_TO_NTP + rng.below(4) * 86_400 - 2 * 86_400), // expiry of the shipped list
+        6 => Some(1_790_380_800 + rng.below(86_400 * 400)),                          // about now
+        7 => Some((1u64 << 32) - UNIX_TO_NTP + rng.below(7200) - 3600),               // NTP era rollover, 2036
+        8 => Some((1u64 << 31) + rng.below(7200) - 3600),                             // 2038
+        9 => Some(4_102_444_800 + rng.below(86_400 * 365 * 80)),                      // 2100-2180
+        10 => Some(9_223_372_036 + rng.below(7200) - 3600),                           // i64 ns since 1970 overflows (2262)
+        _ => Some(rng.below(4_500_000_000)),                                          // anywhere 1970-2112
+    }
 }
 
 /// What the generator knows about each pool image.
@@ -569,6 +605,11 @@ pub fn generate(seed: u64, run_index: u64, infos: &[PoolInfo]) -> Scenario {
                     ops.push(Op::Allow);
                 }
             }
+        } else if r >= 97 {
+            // the wall clock jumps; nothing C06 is about may depend on it
+            ops.push(Op::SetClock {
+                unix_s: clock_reading(&mut rng),
+            });
         } else if kinds & K_RESTART != 0 {
             ops.push(Op::Restart { client });
         }
@@ -597,9 +638,11 @@ pub fn generate(seed: u64, run_index: u64, infos: &[PoolInfo]) -> Scenario {
         (_, 1) => 2,
         _ => 0,
     };
+    let clock = clock_reading(&mut rng);
     Scenario {
         seed,
         stat_lies,
+        clock,
         stratum: match stratum {
             Stratum::ByteSweep(i) => format!("bytesweep@{i}"),
             Stratum::Quiet => "quiet".into(),
